@@ -276,7 +276,7 @@ impl Prop for C13 {
     }
     fn cases(&self, ctx: &Ctx) -> u64 {
         // boundary enumeration cases + soup cases
-        ctx.tier.pick(600 + 600, 201 * 65 + 20_000)
+        ctx.tier.pick(1200 + 6000, 201 * 65 + 100_000)
     }
     fn rule(&self) -> &'static str {
         "(a) boundary product: word length 1..200 x start alignment 0..64 x delimiter class (40 classes: end of input, blanks incl. U+3000, every operator start, quote, brace, digits/underscore/non-ASCII that extend the word) x word class (identifier, keyword lower/upper/alternating, keyword+1, digit/underscore body, range-boundary letters, non-ASCII inside chunk 1/2/last) - thorough enumerates all (length, alignment) pairs with every delimiter, quick samples them; expected boundaries known by construction; both identifier routines compared directly and through whole-lexer runs; (b) all generators for losslessness and structure; (c) reference scanner comparison of boundaries, kinds and keyword recognition on seeds, grammar programs and valid token soup. Non-trivial: word longer than one 32-byte chunk or straddling a chunk boundary (a) / input with >= 5 tokens (b,c); distinct by input hash."
@@ -295,7 +295,7 @@ impl Prop for C13 {
     fn run_case(&self, ctx: &Ctx, idx: u64) -> CaseOut {
         let mut out = CaseOut::default();
         let mut rng = Rng::derive(ctx.seed, "C13", idx);
-        let n_boundary = ctx.tier.pick(600, 201 * 65);
+        let n_boundary = ctx.tier.pick(1200, 201 * 65);
         if idx < n_boundary {
             // (length, alignment) pair: thorough enumerates, quick samples but covers all lengths and all alignments
             let (len, align) = match ctx.tier {
